@@ -3,6 +3,26 @@ From Coq Require Import List Arith Bool.
 Import ListNotations.
 From Heph Require Import Context.Model Context.Spec Context.Proofs.
 
-Theorem empty_history_is_initial_state : run [] = init.
-Proof. exact run_nil. Qed.
-Print Assumptions empty_history_is_initial_state.
+Theorem current_lookup : forall h k n nm, od_get Nat.eqb (cur (run h) n k) nm = live h k n nm.
+Proof. exact current_lookup_pf. Qed.
+Print Assumptions current_lookup.
+
+Theorem current_order : forall h k n, map fst (cur (run h) n k) = order h k n.
+Proof. exact current_order_pf. Qed.
+Print Assumptions current_order.
+
+Theorem order_nodup : forall h k n, NoDup (order h k n).
+Proof. exact order_nodup_pf. Qed.
+Print Assumptions order_nodup.
+
+Theorem current_query : forall h k n, n <> [] -> exists d, get_declarations (run h) n k true false true = QOk d /\ map fst d = order h k n /\ forall nm, od_get Nat.eqb d nm = live h k n nm.
+Proof. exact current_query_pf. Qed.
+Print Assumptions current_query.
+
+Theorem hide_none : forall s n k oc gl d, get_declarations s n k oc gl true = QOk d -> get_declarations s n k oc gl false = QOk (drop_none d).
+Proof. exact hide_none_pf. Qed.
+Print Assumptions hide_none.
+
+Theorem remove_local : forall h p n nm o, (o = match p with Types => RemType n nm | Funcs => RemFunc n nm | Lambdas => RemLambda n nm | Vars => RemVar n nm | Classes => RemClass n nm | Decls => RemVar n nm end) -> (forall k, writes (match p with Decls => Vars | x => x end) k = true -> live (h ++ [o]) k n nm = None) /\ (forall k n' nm', (writes (match p with Decls => Vars | x => x end) k = false \/ n' <> n \/ nm' <> nm) -> live (h ++ [o]) k n' nm' = live h k n' nm').
+Proof. exact remove_local_pf. Qed.
+Print Assumptions remove_local.
